@@ -127,3 +127,76 @@ Theorem autough2_cells line start :
   read_table_line_AUTOUGH2 line start
   = map (fun w => fortran_float w zero) (split_ws (strip (pyslice (Some start) None line))).
 Proof. reflexivity. Qed.
+
+(** ** rows with something after the last printed cell
+
+    A printed row is its cells followed by a tail (the line terminator, trailing blanks): when the row
+    has a cell for every field of the layout the tail is never looked at; when the row is short
+    (blank trailing cells) the tail must be white space, and the fields it reaches read as zero. *)
+Definition blank_str (t : str) : Prop := forallb is_space t = true.
+Lemma ff_blank_str t : blank_str t -> fortran_float t zero = zero.
+Proof.
+  intro H. apply ff_blank. unfold strip, strip_by, rstrip_by. rewrite (lstrip_by_all _ _ H). reflexivity.
+Qed.
+Lemma forallb_firstn {A} (p : A -> bool) k l : forallb p l = true -> forallb p (firstn k l) = true.
+Proof. revert k; induction l as [|x l IH]; intros [|k] H; cbn in *; try reflexivity. apply andb_prop in H as [H1 H2]. rewrite H1, IH by exact H2. reflexivity. Qed.
+Lemma forallb_skipn {A} (p : A -> bool) k l : forallb p l = true -> forallb p (skipn k l) = true.
+Proof. revert k; induction l as [|x l IH]; intros [|k] H; cbn in *; try reflexivity; [exact H|]. apply andb_prop in H as [H1 H2]. apply IH. exact H2. Qed.
+Lemma blank_slice_tail (A t : str) s e : blank_str t -> length A <= s -> blank_str (slice s e (A ++ t)).
+Proof.
+  intros H L. unfold blank_str, slice. rewrite skipn_app, (skipn_all2 A) by lia. cbn [app].
+  apply forallb_firstn, forallb_skipn. exact H.
+Qed.
+Lemma zeros_tail (A t : str) ws : forall e s, blank_str t -> length A <= s -> length A <= e ->
+  map (cellval (A ++ t)) (combine (s :: ends_w e ws) (ends_w e ws)) = repeat zero (length ws).
+Proof.
+  induction ws as [|w r IH]; intros e s Ht Ls Le; [reflexivity|].
+  cbn [ends_w combine map length repeat]. unfold cellval at 1. cbn [fst snd].
+  rewrite (ff_blank_str _ (blank_slice_tail A t s (e + w) Ht Ls)). f_equal. apply IH; [exact Ht|lia|lia].
+Qed.
+
+Lemma cells_nat_tail ws : forall cs A s t,
+  map fst cs = firstn (length cs) ws -> Forall cfits cs ->
+  length A <= s -> s <= length A + first_lead cs -> (length cs = length ws \/ blank_str t) ->
+  map (cellval (A ++ cbody cs ++ t)) (combine (s :: ends_w (length A) ws) (ends_w (length A) ws))
+  = map (fun c => fortran_float (snd c) zero) cs ++ repeat zero (length ws - length cs).
+Proof.
+  induction ws as [|w r IH]; intros cs A s t Hw Hf L1 L2 Ht.
+  - destruct cs; [reflexivity|discriminate].
+  - destruct cs as [|c cs'].
+    + cbn [cbody map app length]. rewrite Nat.sub_0_r. destruct Ht as [Ht|Ht]; [discriminate|]. apply zeros_tail; [exact Ht|lia|lia].
+    + cbn [length firstn map] in Hw. inversion Hw as [[Hw1 Hw2]]. inversion Hf as [|? ? Hc Hf']; subst.
+      cbn [ends_w combine map cbody app]. f_equal.
+      * unfold cellval. cbn [fst snd]. rewrite <- (ccell_length c Hc) at 1. rewrite <- app_assoc. rewrite slice_mid; [| lia |].
+        2:{ rewrite (ccell_length c Hc). cbn [first_lead] in L2. lia. }
+        unfold ccell, rjust. cbn [first_lead] in L2. rewrite skipn_app, spaces_length.
+        replace (s - length A - (fst c - length (snd c))) with 0 by lia. cbn [skipn].
+        replace (skipn (s - length A) (spaces (fst c - length (snd c)))) with (spaces (fst c - length (snd c) - (s - length A))).
+        2:{ unfold spaces. generalize (fst c - length (snd c)) (s - length A). intros n d. revert d.
+            induction n; intro d; destruct d; cbn [repeat skipn Nat.sub]; try reflexivity. apply IHn. }
+        apply ff_spaces.
+      * specialize (IH cs' (A ++ ccell c) (length A + fst c) t Hw2 Hf').
+        rewrite app_length, (ccell_length c Hc) in IH. rewrite <- !app_assoc in IH. rewrite <- app_assoc. cbn [length].
+        replace (S (length r) - S (length cs')) with (length r - length cs') by lia.
+        apply IH; [lia|lia|]. destruct Ht as [Ht|Ht]; [left; cbn [length] in Ht; lia|right; exact Ht].
+Qed.
+
+(** the theorem about the reader of TOUGH2-family rows, with a tail *)
+Theorem cells_decode_tail_thm pre cs ws s0 ncols t :
+  map fst cs = firstn (length cs) ws -> Forall cfits cs ->
+  length pre <= s0 -> s0 <= length pre + first_lead cs -> (length cs = length ws \/ blank_str t) ->
+  read_table_line_TOUGH2 (pre ++ cbody cs ++ t) ncols (Z.of_nat s0 :: map Z.of_nat (ends_w (length pre) ws))
+  = map (fun c => fortran_float (snd c) zero) cs
+    ++ repeat zero (length ws - length cs) ++ repeat zero (ncols - length ws).
+Proof.
+  intros Hw Hf L1 L2 Ht. unfold read_table_line_TOUGH2. cbn [tl length].
+  rewrite map_length.
+  rewrite ends_w_length.
+  replace (Z.to_nat (Z.of_nat ncols - (Z.of_nat (S (length ws)) - 1))) with (ncols - length ws) by lia.
+  rewrite (app_assoc (map (fun c => fortran_float (snd c) zero) cs)). f_equal.
+  rewrite <- (cells_nat_tail ws cs pre s0 t Hw Hf L1 L2 Ht).
+  change (Z.of_nat s0 :: map Z.of_nat (ends_w (length pre) ws)) with (map Z.of_nat (s0 :: ends_w (length pre) ws)).
+  generalize (s0 :: ends_w (length pre) ws) as xs. generalize (ends_w (length pre) ws) as ys.
+  induction ys as [|y ys IH]; intros xs; destruct xs as [|x xs]; cbn [map combine]; try reflexivity.
+  rewrite IH. f_equal. cbn [fst snd]. unfold cellval. cbn [fst snd]. rewrite pyslice_nat. reflexivity.
+Qed.
